@@ -4,7 +4,7 @@
    keep = true is Statement.clone as it is in /repo (attrs/assigns copied, commit 2b43abc) and is what
    the correspondence checker evaluates ([step_repo]); keep = false is the tree before that fix.
    [wf t] = keys strictly increasing (a table as a primary-key index stores it). *)
-From Verif Require Import Base C16_Model C16_Spec C16_Proofs C16_Proofs2 C16_Proofs3.
+From Verif Require Import Base C16_Model C16_Spec C16_Proofs C16_Proofs2 C16_Proofs3 C16_Proofs4.
 Open Scope Z_scope.
 
 (* ---- Save ------------------------------------------------------------------------------------ *)
@@ -205,6 +205,15 @@ Theorem c16_create_map_update_all_columns : forall now ks ex old c, In c [CName;
   get_col c (moc_apply now RAll ks ex old) = if named ks c then get_col c ex else get_col c old.
 Proof. exact moc_all_columns. Qed.
 Print Assumptions c16_create_map_update_all_columns.
+
+(* Omit(cols...).Save(&v) (round 7): the executable specification spec_save_omit — the full value is stored except
+   the omitted columns, which keep what the row had (or stay empty in a new row), nothing else changes, one row
+   affected, the key handed back — holds of the model's own output for EVERY well-formed table, Omit list, value
+   and clock value (live / soft-deleted / absent / zero key) *)
+Theorem c16_save_omit_meets_spec : forall t now os v, wf t ->
+  spec_save_omit t os v (obs_of_result (save_omit t now os v)) = true.
+Proof. exact save_omit_meets_spec. Qed.
+Print Assumptions c16_save_omit_meets_spec.
 
 (* ---- the specification the checker evaluates on gorm's outputs holds of the model's own output ---- *)
 (* for every well-formed table, clock value, chain and finisher of the domain (type-correct values,
